@@ -47,6 +47,12 @@ pub struct Run {
     watch: Mutex<BTreeMap<usize, (String, Instant)>>,
     pub case_cap_s: AtomicU64,
     deadline_s: f64,
+    /// `VERIF_SUBPART=<name>`: this process is a sub-run of the property's checker (e.g. the
+    /// same enumeration against another build configuration of the library).  Keys are prefixed
+    /// with `<name>:`, the evidence goes to `evidence/parts/<id>.<name>.json`, and the parent
+    /// process merges the result (`Run::run_subpart`).
+    subpart: Option<String>,
+    ext_violations: AtomicU64,
 }
 
 thread_local! {
@@ -207,6 +213,8 @@ impl Run {
             watch: Mutex::new(BTreeMap::new()),
             case_cap_s: AtomicU64::new(if tier == Tier::Quick { 60 } else { 600 }),
             deadline_s,
+            subpart: std::env::var("VERIF_SUBPART").ok().filter(|s| !s.is_empty()),
+            ext_violations: AtomicU64::new(0),
         }
     }
 
@@ -265,12 +273,75 @@ impl Run {
     }
 
     pub fn nviolations(&self) -> usize {
-        self.viol_keys.lock().unwrap().len()
+        self.viol_keys.lock().unwrap().len() + self.ext_violations.load(Ordering::Relaxed) as usize
+    }
+
+    /// Runs the sibling executable `bin` as a sub-run `name` of this check (same tier, `budget_s`
+    /// wall budget, `--replay` forwarded when the recorded key belongs to the sub-run), lets it
+    /// print its own VIOLATION / KNOWN-FINDING lines, adds its violations to this run's verdict
+    /// and returns its evidence.  Anything but exit 0/1 is a machinery error.
+    pub fn run_subpart(&self, bin: &str, name: &str, budget_s: f64) -> Value {
+        let exe = std::env::current_exe().ok().and_then(|p| p.parent().map(|d| d.join(bin)));
+        let Some(exe) = exe.filter(|e| e.exists()) else {
+            eprintln!("MACHINERY ERROR: sub-run executable {bin} not found next to the checker");
+            std::process::exit(3);
+        };
+        let mut cmd = std::process::Command::new(exe);
+        cmd.arg("--tier").arg(if self.tier == Tier::Quick { "quick" } else { "thorough" });
+        cmd.env("VERIF_SUBPART", name).env("VERIF_BUDGET_S", format!("{budget_s}"));
+        if let Some(r) = &self.replay {
+            let key = std::fs::read_to_string(r).ok().and_then(|t| serde_json::from_str::<Value>(&t).ok()).and_then(|v| v["key"].as_str().map(|s| s.to_string())).unwrap_or_default();
+            if !key.starts_with(&format!("{name}:")) {
+                return json!({"skipped": "replay of a key that does not belong to this sub-run"});
+            }
+            cmd.arg("--replay").arg(r);
+        }
+        let st = match cmd.status() {
+            Ok(s) => s,
+            Err(e) => {
+                eprintln!("MACHINERY ERROR: cannot start sub-run {bin}: {e}");
+                std::process::exit(3);
+            }
+        };
+        match st.code() {
+            Some(0) | Some(1) => {}
+            other => {
+                eprintln!("MACHINERY ERROR: sub-run {bin} ended with {other:?}");
+                std::process::exit(3);
+            }
+        }
+        if self.replay.is_some() {
+            // the sub-run has printed REPLAY ... reproduced=...; its exit code is the answer
+            std::process::exit(st.code().unwrap());
+        }
+        let path = format!("{}/evidence/parts/{}.{}.json", verif_root(), self.id, name);
+        let ev: Value = match std::fs::read_to_string(&path).ok().and_then(|t| serde_json::from_str(&t).ok()) {
+            Some(v) => v,
+            None => {
+                eprintln!("MACHINERY ERROR: sub-run {bin} left no evidence at {path}");
+                std::process::exit(3);
+            }
+        };
+        let n = ev["violations"].as_u64().unwrap_or(0);
+        if (n > 0) != (st.code() == Some(1)) {
+            eprintln!("MACHINERY ERROR: sub-run {bin}: exit code and evidence disagree");
+            std::process::exit(3);
+        }
+        self.ext_violations.fetch_add(n, Ordering::Relaxed);
+        ev
     }
 
     /// Reports a failing case.  `key` is the canonical case id; a known finding matches if its
     /// key equals `key`, or ends in `*` and is a prefix of `key`.
     pub fn fail(&self, key: &str, what: &str, detail: Value) {
+        let prefixed;
+        let key = match &self.subpart {
+            Some(p) => {
+                prefixed = format!("{p}:{key}");
+                prefixed.as_str()
+            }
+            None => key,
+        };
         if let Ok(path) = std::env::var("VERIF_DUMP_FAILS") {
             // development aid: every failing key (known or not), one per line
             use std::io::Write;
@@ -449,16 +520,23 @@ impl Run {
             "wall_s": (wall * 1000.0).round() / 1000.0,
             "violations": nviol,
         });
-        let dir = format!("{}/evidence", verif_root());
+        let dir = match &self.subpart {
+            Some(_) => format!("{}/evidence/parts", verif_root()),
+            None => format!("{}/evidence", verif_root()),
+        };
         let _ = std::fs::create_dir_all(&dir);
-        let path = format!("{dir}/{}.json", self.id);
+        let path = match &self.subpart {
+            Some(p) => format!("{dir}/{}.{p}.json", self.id),
+            None => format!("{dir}/{}.json", self.id),
+        };
         if let Err(e) = std::fs::write(&path, serde_json::to_string_pretty(&ev).unwrap() + "\n") {
             eprintln!("cannot write evidence {path}: {e}");
             std::process::exit(2);
         }
         println!(
-            "{} tier={} wall={:.1}s violations={} known_findings_hit={} evidence={}",
+            "{}{} tier={} wall={:.1}s violations={} known_findings_hit={} evidence={}",
             self.id,
+            self.subpart.as_ref().map(|p| format!("[{p}]")).unwrap_or_default(),
             ev["tier"].as_str().unwrap(),
             wall,
             nviol,
